@@ -19,7 +19,31 @@ import (
 //	rA bfrange -> array form [BMP, ligature, surrogate pair]
 //	rL bfrange -> offset form whose start is a ligature   <lo> <hi> <00660069>  (last unit incremented)
 //	rS bfrange -> offset form whose start is a surrogate pair <lo> <hi> <D835DC10>
-var entryKinds = []string{"cB", "cL", "cD", "cS", "rO", "rE", "rA", "rL", "rS"}
+//
+// Targets by length in UTF-16 units: every form (bfchar, bfrange offset, bfrange array element)
+// occurs with 1, 2, 3 and 4 units, and with a 3-unit target that mixes a BMP character with a
+// surrogate pair:
+//
+//	cM bfchar  -> BMP + surrogate pair (3 units)          <0078D835DC00>
+//	cQ bfchar  -> BMP + surrogate pair + BMP (4 units)    <0066D835DC000069>
+//	rT bfrange -> offset form, 3-unit start "ffi"         <lo> <hi> <006600660069>
+//	rM bfrange -> offset form, 3-unit start BMP + surrogate pair (the low surrogate is incremented)
+//	rQ bfrange -> offset form, 4-unit start surrogate pair + "fi"
+//	rB bfrange -> array form [3 units "ffi", 3 units BMP + pair, 4 units BMP + pair + BMP]
+var entryKinds = []string{"cB", "cL", "cD", "cS", "cM", "cQ", "rO", "rE", "rA", "rB", "rL", "rS", "rT", "rM", "rQ"}
+
+// isArrayKind: the bfrange entry is written in the array form.
+func isArrayKind(kind string) bool { return kind == "rA" || kind == "rB" }
+
+// hasArrayKind: the program contains an array-form entry.
+func hasArrayKind(prog []string) bool {
+	for _, k := range prog {
+		if isArrayKind(k) {
+			return true
+		}
+	}
+	return false
+}
 
 type mapping struct {
 	code []byte
@@ -90,6 +114,18 @@ func buildEntry(kind string, slot, w int) entry {
 		targets = []string{"א", "fi", "\U0001D401"}
 	case "rL":
 		targets = []string{"fi", "fj", "fk"}
+	case "cM":
+		targets = []string{"x\U0001D400"}
+	case "cQ":
+		targets = []string{"f\U0001D400i"}
+	case "rT":
+		targets = []string{"ffi", "ffj", "ffk"}
+	case "rM":
+		targets = []string{"f\U0001D410", "f\U0001D411", "f\U0001D412"}
+	case "rQ":
+		targets = []string{"\U0001D400fi", "\U0001D400fj", "\U0001D400fk"}
+	case "rB":
+		targets = []string{"ffi", "x\U0001D401", "f\U0001D402i"}
 	case "rS":
 		targets = []string{"\U0001D410", "\U0001D411", "\U0001D412"}
 	}
@@ -108,7 +144,7 @@ func buildEntry(kind string, slot, w int) entry {
 	}
 	e.n = len(targets)
 	e.start = u16(targets[0])
-	if kind == "rA" {
+	if isArrayKind(kind) {
 		for _, t := range targets {
 			e.array = append(e.array, u16(t))
 		}
@@ -157,7 +193,7 @@ func renderEntry(en entry, w int, format string) []string {
 		return []string{src + sep + "<" + hexUnits(en.start, lower) + ">"}
 	}
 	hi := "<" + hexCode(en.lo+uint32(en.n-1), w, lower) + ">"
-	if en.kind != "rA" {
+	if !isArrayKind(en.kind) {
 		return []string{src + sep + hi + sep + "<" + hexUnits(en.start, lower) + ">"}
 	}
 	var elems []string
